@@ -62,6 +62,14 @@ func c02ScriptListShared(k int) []byte {
 }
 
 var c02Families = []c02Family{
+	{"classdef: format 2 with k pairs of ranges (1..0xFFFE), (0xFFFF..0): the second range of a pair ends before it starts and takes the end of the previous range back to glyph 0", "classdef.Read",
+		func(k int) []byte {
+			out := be16(2, 2*k)
+			for i := 0; i < k; i++ {
+				out = append(out, be16(1, 0xFFFE, 1, 0xFFFF, 0, 1)...)
+			}
+			return out
+		}, []int{4, 16, 64, 256, 1024}},
 	{"GSUB: k script records sharing one script table whose k language system records share one language system with k feature indices (k^3 entries from 14k bytes)", "gtab.Read/GSUB", c02ScriptListShared, []int{25, 50, 100, 200, 400}},
 	{"CFF: a simple font that uses the predefined ISOAdobe charset (229 names) and has k glyphs", "cff.Read", c02PredefinedCharset(1), c02PredefinedCounts},
 	{"CFF: a simple font that uses the predefined Expert charset (166 names) and has k glyphs", "cff.Read", c02PredefinedCharset(2), c02PredefinedCounts},
